@@ -40,4 +40,15 @@ structure WaitSite where
   condWaits : List String -- loop conditions of condition-variable waits
 deriving Repr, DecidableEq
 
+/-- one allocation of a message queue in a protocol: `target := make(chan *protocol.Message, cap)` -/
+structure QueueAlloc where
+  pkg : String
+  fn : String
+  target : String
+  tkind : String      -- "send" | "recv" | "new" (a replacement queue built inside SetOption)
+  cap : String
+  ckind : String      -- "sendQLen" | "recvQLen" | "default" | "value" (the option value / a length passed in) | "other:…"
+  optCase : String    -- the SetOption case the allocation sits in ("" outside SetOption)
+deriving Repr, DecidableEq
+
 end Model
